@@ -654,6 +654,23 @@ func main() {
 				}
 			}
 		}})
+	ck.Domains = append(ck.Domains, &drv.Domain{Name: "fresh-triples", Tier: "t", Size: int64(len(groups)), Chunk: 1,
+		Desc: "first use on 3 threads: the triples of each shared-object group with every execution in a fresh process (its bound-0 pass is every 3-operation ordering of the triple in a fresh process)",
+		Run: func(c *drv.Ctx, lo, hi int64) {
+			for i := lo; i < hi; i++ {
+				c.At(i)
+				if c.FailCount() >= 3 {
+					c.Count("scenarios_skipped_after_failures", 1)
+					continue
+				}
+				bad := false
+				st := exploreCase(c, i, "first-use", groups[i], freshBackend(groups[i], &bad), 2)
+				if bad {
+					c.Fail(i, "shared-input-buffers-modified", nil)
+				}
+				c.Outcome(fmt.Sprintf("outcomes=%d", len(st.Outcomes)))
+			}
+		}})
 	size3 := int64(nops) * int64(nops) * int64(nops)
 	ck.Domains = append(ck.Domains, &drv.Domain{Name: "histories-3", Tier: "t", Size: size3, Chunk: 8, Desc: "every sequence of 3 operations on one thread, each sequence in a fresh process: every result equals the solo result",
 		Run: func(c *drv.Ctx, lo, hi int64) {
